@@ -298,8 +298,18 @@ func (g *goRoute) run(p prim) string {
 // The driver receives the pool, then a flat list of step records. After each
 // step it reports #t, optionally a full traversal and a lookup of every pool key.
 const luaDriver = `
-local obs, pcall, next, pairs, rawget, rawset, rawequal, setmetatable = obs, pcall, next, pairs, rawget, rawset, rawequal, setmetatable
-return function(meta, np, ...)
+local flush, pcall, next, pairs, rawget, rawset, rawequal, setmetatable = obs, pcall, next, pairs, rawget, rawset, rawequal, setmetatable
+-- observations are records (tag, a, b) written to a buffer that is handed to
+-- the host once per step
+local buf, nb = {}, 0
+local function obs(tag, a, b)
+  buf[nb + 1] = tag
+  buf[nb + 2] = a
+  buf[nb + 3] = b
+  nb = nb + 3
+  if nb >= 3000 then flush(buf, nb) nb = 0 end
+end
+local function run(meta, np, ...)
   local A = table.pack(...)
   local P = {}
   for j = 1, np do P[j] = A[j] end
@@ -379,9 +389,11 @@ return function(meta, np, ...)
       obs("E")
     elseif op == "bad" then
       i = i + 1
-      obs("bad", (pcall(rawset, t, NAN, 1)), (pcall(rawset, t, nil, 1)), rawget(t, NAN), rawget(t, nil))
+      obs("bad", (pcall(rawset, t, NAN, 1)), (pcall(rawset, t, nil, 1)))
+      obs("badg", rawget(t, NAN), rawget(t, nil))
       if not meta then
-        obs("bad2", (pcall(function() t[NAN] = 1 end)), (pcall(function() t[nil] = 1 end)), t[NAN], t[nil])
+        obs("bad2", (pcall(function() t[NAN] = 1 end)), (pcall(function() t[nil] = 1 end)))
+        obs("bad2g", t[NAN], t[nil])
       end
     else
       error("bad op " .. tostring(op))
@@ -393,7 +405,15 @@ return function(meta, np, ...)
     if flags & 2 ~= 0 then
       for j = 1, np do obs("G", rawget(t, P[j]), t[P[j]]) end
     end
+    flush(buf, nb)
+    nb = 0
   end
+end
+return function(...)
+  nb = 0
+  local ok, err = pcall(run, ...)
+  if nb > 0 then flush(buf, nb) nb = 0 end
+  if not ok then error(err, 0) end
 end
 `
 
@@ -448,10 +468,10 @@ func luaReplay(w *world, prims []prim, meta bool) (msg string, poisoned bool) {
 		}
 		args = append(args, rt.IntValue(flags))
 	}
-	w.events = w.events[:0]
+	w.flat = w.flat[:0]
 	w.tooBig = false
 	tr := w.s.Call(w.driver, 400_000_000, 0, args...)
-	evs := w.events
+	evs := w.records()
 	mode := "plain table"
 	if meta {
 		mode = "table with logging __index/__newindex"
@@ -630,7 +650,12 @@ func luaReplay(w *world, prims []prim, meta bool) (msg string, poisoned bool) {
 			if arg(e, 1) != spFalse || arg(e, 2) != spFalse {
 				return fail(si, "rawset with a NaN/nil key did not raise an error (pcall results %s, %s)", arg(e, 1), arg(e, 2))
 			}
-			if arg(e, 3) != spNil || arg(e, 4) != spNil {
+			if tag() != "badg" {
+				return fail(si, "unexpected observation %q", tag())
+			}
+			e = evs[pos]
+			pos++
+			if arg(e, 1) != spNil || arg(e, 2) != spNil {
 				return fail(si, "rawget with a NaN/nil key is not nil")
 			}
 			if !meta {
@@ -645,7 +670,12 @@ func luaReplay(w *world, prims []prim, meta bool) (msg string, poisoned bool) {
 				if arg(e, 1) != spFalse || arg(e, 2) != spFalse {
 					return fail(si, "t[NaN]=1 / t[nil]=1 did not raise an error (pcall results %s, %s)", arg(e, 1), arg(e, 2))
 				}
-				if arg(e, 3) != spNil || arg(e, 4) != spNil {
+				if tag() != "bad2g" {
+					return fail(si, "unexpected observation %q", tag())
+				}
+				e = evs[pos]
+				pos++
+				if arg(e, 1) != spNil || arg(e, 2) != spNil {
 					return fail(si, "t[NaN] / t[nil] is not nil")
 				}
 			}
